@@ -93,6 +93,10 @@ type Options struct {
 	ParallelChance int // percent chance to double a link (default 20)
 	PeerChance     int // percent chance per candidate pair of non-core ASes (default 25)
 	SparseIfIDs    bool
+	// ReuseASNumbers numbers the ASes per ISD (the k-th AS of every ISD gets the
+	// same AS number), so that different ISD-ASes share an AS number, as SCION
+	// allows. Default (false): AS numbers are globally unique. Draws no random numbers.
+	ReuseASNumbers bool
 }
 
 func (o *Options) defaults() {
@@ -142,7 +146,12 @@ func Generate(r *vgen.Rand, o Options) *Topology {
 	}
 	t := &Topology{byIA: map[addr.IA]*AS{}}
 	nextIf := map[*AS]uint16{}
+	inISD := map[int]int{}
 	newAS := func(isd int, idx int, core bool, level int) *AS {
+		if o.ReuseASNumbers {
+			idx = inISD[isd]
+		}
+		inISD[isd]++
 		ia := addr.MustIAFrom(addr.ISD(isd), addr.AS(0xff00_0000_0100+uint64(idx)))
 		a := &AS{IA: ia, Core: core, Key: r.Bytes(16), MTU: vgen.Pick(r, mtuChoices...), Level: level}
 		f, err := scrypto.HFMacFactory(a.Key)
